@@ -88,7 +88,7 @@ def shrink(pid, P, d, exes, work):
 # ==========================================================================
 # C14
 # ==========================================================================
-HK = {0: "DummyTestHeader", 1: "TagHeader", 2: "HeaderTagHeader", 3: "BootInformationHeader", 4: "Multiboot2BasicHeader"}
+HK = {0: "DummyTestHeader", 1: "TagHeader", 2: "HeaderTagHeader", 3: "BootInformationHeader", 4: "Multiboot2BasicHeader", 5: "user-defined 12-byte header"}
 
 
 def hdr_bytes(h, declared, rng):
@@ -99,15 +99,20 @@ def hdr_bytes(h, declared, rng):
         return u16(rng.randrange(0, 11)) + u16(rng.randrange(0, 2)) + u32(declared)
     if h == 3:
         return u32(declared) + u32(rng.choice([0, 0xFFFFFFFF, rng.getrandbits(32)]))
+    if h == 5:      # the user-defined 12-byte header {typ, size, extra}
+        return u32(rng.getrandbits(32)) + u32(declared) + u32(rng.getrandbits(32))
     return u32(rng.choice([0xE85250D6, rng.getrandbits(32)])) + u32(rng.choice([0, 4])) + u32(declared) + u32(rng.getrandbits(32))
+
+
+HSIZE = {0: 8, 1: 8, 2: 8, 3: 8, 4: 16, 5: 12}
 
 
 def gen_C14(rng, tier):
     cases = []
     dist = {"hkind": {}, "len_mod8": {}, "align": {}}
     keep = 1.0 if tier == "thorough" else 0.07
-    for h in range(5):
-        hs = 16 if h == 4 else 8
+    for h in (0, 1, 2, 3, 4, 5):
+        hs = HSIZE[h]
         for n in range(0, 49):
             for a in range(8):
                 for d in range(0, 65):
@@ -123,9 +128,9 @@ def gen_C14(rng, tier):
                     dist["len_mod8"][str(n % 8)] = dist["len_mod8"].get(str(n % 8), 0) + 1
                     dist["align"][str(a)] = dist["align"].get(str(a), 0) + 1
     # the accepting side: aligned slices of 8k bytes whose header declares any size that fits (and the first that does not)
-    for h in range(5):
-        hs = 16 if h == 4 else 8
-        for n in list(range(hs, 97, 8)) + [256, 1024]:
+    for h in (0, 1, 2, 3, 4, 5):
+        hs = HSIZE[h]
+        for n in list(range((hs + 7) // 8 * 8, 97, 8)) + [256, 1024]:
             ds = sorted(set([hs, hs + 1, n - 8, n - 7, n - 1, n, n + 1, rng.randrange(hs, n + 1)]))
             for d in ds:
                 if d < 0:
@@ -134,7 +139,7 @@ def gen_C14(rng, tier):
                 cases.append("c14 %d 0 %s" % (h, hx(body)))
                 dist["accepting_family"] = dist.get("accepting_family", 0) + 1
     # large declared sizes
-    for h in range(5):
+    for h in (0, 1, 2, 3, 4, 5):
         for d in (0xFFFFFFFF, 0x80000000, 0xFFFFFFF8, 0x10000, 4096, 4097):
             body = hdr_bytes(h, d, rng) + marker(48)
             cases.append("c14 %d 0 %s" % (h, hx(body[:48])))
